@@ -22,7 +22,7 @@ RULE = (
     "notation alphabet plus other characters, S1-printed valid descriptions with token-level mutations and deep nesting, same "
     "oracles. (c) accepted strings are run through public operations of every family with tensors of matching rank: any "
     "SyntaxError must quote the caller's string. (d) thorough tier: 6 coverage-guided campaigns (atheris/libFuzzer, einx's stage1 "
-    "parser instrumented; bytes decoded token-wise into strings; empty corpus and a corpus of valid descriptions from the repository's tests; 120,000 executions each) with the "
+    "parser instrumented; bytes decoded token-wise into strings; empty corpus and a corpus of valid descriptions from the repository's tests; 60,000 executions each) with the "
     "oracles of (a) inside the target; findings are bucketed and the campaign continues. Non-trivial: a string that parses or fails after the lexer; distinct by string."
 )
 ASSUMPTIONS = [
@@ -389,7 +389,7 @@ def worker(k, n, tier, seed, known_buckets, extra):
 
 
 FUZZ_WORKERS = 6
-FUZZ_RUNS = 120000
+FUZZ_RUNS = 60000
 
 
 def run_fuzz(k, seed, known_buckets):
